@@ -140,3 +140,35 @@ Print Assumptions C04_resolve_review_all.
 Print Assumptions C04_removes_only_with_trim.
 Print Assumptions C04_removes_pinned_refuted.
 Print Assumptions C04_applied_monotone_in_answers.
+
+(* the approval loop of pytest_sessionfinish over ANY number of test files (Model/Session.v): a pending change is written iff its category is shown
+   (review, report or the category itself among the flags), approved (flag / review answer), and the preview of that category shows a diff for SOME file of the
+   session - whichever file that is, and whatever the other categories did *)
+From V Require Model.Session Proofs.SessionProofs.
+Theorem C04_session_applied_iff :
+  forall (cf : Session.sconf) (pending : list Session.change) (ch : Session.change),
+  In ch (fst (Session.session cf pending)) <-> In ch pending /\ SessionProofs.passes cf pending (Session.ch_cat ch) = true.
+Proof. exact SessionProofs.session_applied_iff. Qed.
+(* nothing is written without approval ... *)
+Theorem C04_session_applied_approved :
+  forall (cf : Session.sconf) (pending : list Session.change) (ch : Session.change),
+  In ch (fst (Session.session cf pending)) -> Session.approve cf (Session.ch_cat ch) = true.
+Proof. exact SessionProofs.session_applied_approved. Qed.
+(* ... and an approved category is applied to every file: a visible change of a shown, approved category in one file takes every pending change of that
+   category in every other file with it *)
+Theorem C04_session_category_all_files :
+  forall (cf : Session.sconf) (pending : list Session.change) (ch ch' : Session.change),
+  In ch pending -> In ch' pending -> Session.ch_cat ch' = Session.ch_cat ch -> Session.ch_visible ch = true ->
+  Session.shown cf (Session.ch_cat ch) = true -> Session.approve cf (Session.ch_cat ch) = true ->
+  In ch' (fst (Session.session cf pending)).
+Proof. exact SessionProofs.session_category_all_files. Qed.
+(* the outcome does not depend on the order in which files, tests and snapshots registered their changes *)
+Theorem C04_session_order_irrelevant :
+  forall (cf : Session.sconf) (p1 p2 : list Session.change) (ch : Session.change),
+  (forall x : Session.change, In x p1 <-> In x p2) ->
+  (In ch (fst (Session.session cf p1)) <-> In ch (fst (Session.session cf p2))).
+Proof. exact SessionProofs.session_order_irrelevant. Qed.
+Print Assumptions C04_session_applied_iff.
+Print Assumptions C04_session_applied_approved.
+Print Assumptions C04_session_category_all_files.
+Print Assumptions C04_session_order_irrelevant.
